@@ -1,3 +1,4 @@
+import RsyncModel.PureTie
 import RsyncModel.RoundTripHonest
 import RsyncModel.RecvOrderSpec
 /-! # C03 — only data that passes the whole-file checksum ever replaces a destination file
@@ -89,5 +90,19 @@ theorem honest_stream_commits (Hs Hfile : Bytes → Bytes) (blm1 cs : Nat) (basi
           (encToks (senderTokens Hs (honestHead blm1 cs basis) (honestSums Hs blm1 basis) t) ++ (Hfile t ++ rest)))
       = (.committed t, rest) :=
   roundtrip_honest Hs Hfile blm1 cs basis t rest hcs hbl hcount hfile16 nocoll
+
+
+/-! ### Tie to the source (regenerated translation `Gen.Pure`) -/
+
+/-- **the sender hashes exactly the bytes it describes, in file order**: one call of `matched`
+(match.go, translated from /repo on every run) feeds the whole-file hash with the span that starts at
+the old `lastMatch` and sets `lastMatch` to that span's end — so consecutive calls cover consecutive,
+non-overlapping spans; a block reference extends the span by the block's length, the flush
+pseudo-tokens by nothing. -/
+theorem source_hash_spans_contiguous (offset lastMatch sumLen : Int) (i : Int32) :
+    ∃ n lm', Gen.Pure.matchedSpan offset i lastMatch sumLen = .ok (n, lm') ∧ lm' = lastMatch + n ∧
+      n = offset - lastMatch + (if i.toInt < 0 then 0 else sumLen) := by
+  refine ⟨_, _, PureTie.matchedSpan_tied offset lastMatch sumLen i, ?_, rfl⟩
+  omega
 
 end C03
